@@ -36,7 +36,7 @@ func defclassFromList(name string, args slip.List, p *slip.Printer) Node {
 		for i, v := range list {
 			switch tv := v.(type) {
 			case slip.Symbol:
-				ssa.List.children[i] = &Leaf{text: []byte(tv)}
+				ssa.List.children[i] = &Leaf{text: tv.Readably(nil, p)}
 			case slip.List:
 				ssa.List.children[i] = newOptPairs(tv, p)
 			default:
